@@ -19,6 +19,11 @@ CHECKS = {
   text="Dual emission: a random nest of control structures (if/elif/else, for/else over lists/tuples/strings/generators/ranges, while, try/except, with, <% %> blocks with assignments, break/continue/return/raise, def calls, comment-only and empty bodies) is printed as a Mako template under 3 of 4 layouts (indentation of % lines, tight '%if', block margins incl. tabs, CRLF) and as an equivalent Python function that is executed as the oracle; `loop` attributes are recomputed by an independent loop-record class; output or exception type and side effects must agree and Template.code must compile. enable_loop off / re-enabled by <%page> is checked on directed templates.",
   note="Trusted: CPython executing the dual emission; the generator in checks/c03.py. Not asserted: `loop` inside the else clause of its own loop; `% finally:` (rejected by Mako's control-line analysis and not in the statement).",
   technique="dual emission differential oracle (template vs equivalent Python) over grammar-generated programs"),
+ "C04": dict(
+  category="exploration", design_ref="DESIGN.md §2 C04",
+  text="By-construction oracle: one variable is bound at every subset (size <=3 quick, <=5 thorough) of 9 binding sites, each binding carrying a sentinel naming its site, and read at each of 9 read sites through a module-level show() helper, under strict_undefined on/off and 3 layouts; the expected sentinel (or UNDEFINED, or a NameError naming the variable) is the first hit in the statement's order; the product is enumerated exhaustively on real templates through a TemplateLookup. Context isolation (deep comparison of render arguments, context.kwargs from three scopes and after mutation, includes and inherited bases seeing the context value of a name the body reassigned) and the reserved names (4 names x 5 render entry points, x 8 binding forms at compile time) are checked by directed scenarios.",
+  note="Trusted: the resolution order table in checks/c04.py (taken from the statement). Not asserted: module-level vs body-handed-down values inside defs; body loop targets inside defs. One open known finding (identifier named like a filter flag inside a filter-call argument).",
+  technique="by-construction sentinel oracle over the exhaustive binding-site x read-site product"),
  "C09": dict(
   category="exploration", design_ref="DESIGN.md §2 C09",
   text="Every URI of the stated segment/separator/leading alphabet (exhaustive up to 4 segments quick, 6 thorough) is looked up on real TemplateLookup objects over a fixture tree with canary files at every place a traversal could land, directly and through include/inherit/namespace/Namespace-API calls from callers at depth 0..3; a sys.addaudithook file-access monitor, the realpath of every returned Template.filename and a canary scan of the output decide containment.",
